@@ -332,7 +332,7 @@ func cmdCheck(id, tier string, writeBaseline bool) int {
 			notClaimed++
 			continue
 		}
-		if r.Status == "unsupported" && !inBase && r.Kind == "subset" {
+		if (r.Status == "unsupported" && r.Kind == "subset" || r.Status == "unbound" && r.Kind == "contract") && !inBase {
 			// a function whose obligations were discharged on the unchanged tree has left the modelled
 			// subset: those obligations can no longer be established
 			had := 0
@@ -342,7 +342,7 @@ func cmdCheck(id, tier string, writeBaseline bool) int {
 				}
 			}
 			if had > 0 {
-				r.Detail = fmt.Sprintf("%d obligations of this function were discharged on the unchanged tree; the function is now outside the modelled subset: %s", had, r.Detail)
+				r.Detail = fmt.Sprintf("%d obligations of this function were discharged on the unchanged tree; now the function is outside the modelled subset or its contract no longer binds: %s", had, r.Detail)
 				inBase = true
 			}
 		}
